@@ -36,7 +36,7 @@ def run(ctx):
     # (_MSC_VER branches: __cpuid/_xgetbv, Interlocked* cache access, _BitScanReverse64/__popcnt64) and, in the thorough tier,
     # the 32-bit x86 and aarch64 parses of the same sources
     fl = ["gnu-x86_64", "msvc-x86_64", "generic"] if ctx.tier == "quick" else list(r_c.C_FLAVOURS)
-    for name in ("FC", "KC", "modeC", "S1C", "S4C", "M3C", "D1C", "G1C", "LZC", "ZPC", "M1C", "D3C", "D4C", "MOC", "X0C"):
+    for name in ("FC", "KC", "modeC", "S1C", "S4C", "M3C", "D1C", "G1C", "LZC", "ZPC", "M1C", "D3C", "D4C", "MOC", "X0C", "TMC"):
         ctx.run_c_rule(name, getattr(r_c, "rule_" + name), fl)
     ctx.run_c_rule("HBC", r_c.rule_HBC, list(r_c.C_FLAVOURS))     # every #if branch of the bit helpers, in both tiers
     ctx.run_rule("R1c", r_round.rule_R1_c)
